@@ -1163,41 +1163,22 @@ Proof.
   intros Hr HF Ha E. unfold mpd_audio_timeline. rewrite E. now apply audio_timeline_ok.
 Qed.
 
-(** when the hypothesis holds for the code as it is: a default sample duration equal to the frame
-    duration is signalled, or 48 kHz AAC (1024) / AC-3, E-AC-3 (1536); at other timescales without a
-    signalled default the MPD code has frame duration 0 whatever the measured one is *)
-Lemma mpd_frame_dur_cases cdur dflt codec a :
-  (dflt <> 0 -> mpd_frame_dur cdur dflt codec a = dflt) /\
-  (dflt = 0 -> codec = 0 -> a = 48000 -> mpd_frame_dur cdur dflt codec a = 1024) /\
-  (dflt = 0 -> codec = 1 -> a = 48000 -> mpd_frame_dur cdur dflt codec a = 1536) /\
-  (dflt = 0 -> a <> 48000 -> mpd_frame_dur cdur dflt codec a = 0).
-Proof.
-  unfold mpd_frame_dur, rep_sample_dur. repeat split; intros.
-  - replace (dflt =? 0) with false by lia. reflexivity.
-  - subst. reflexivity.
-  - subst. reflexivity.
-  - subst. cbn [Z.eqb negb]. replace (a =? 48000) with false by lia. now rewrite !andb_false_r.
-Qed.
+(** the hypothesis holds for every admitted audio representation: admission requires a non-zero
+    constant sample duration, and that is the frame duration *)
+Lemma mpd_frame_dur_const cdur dflt codec a : cdur <> 0 -> mpd_frame_dur cdur dflt codec a = cdur.
+Proof. intros. unfold mpd_frame_dur. replace (cdur =? 0) with false by lia. reflexivity. Qed.
 
-(** C03_timeline_sampledur_refuted: AAC with 1024-sample frames at 44.1 kHz (measured constant sample
-    duration 1024), no default sample duration in trex/tfhd (generated asset g2997a441: four video
-    segments of 60060 ticks at 30000): the MPD code divides by zero. *)
-Lemma timeline_sampledur_refuted_witness :
-  mpd_frame_dur 1024 0 0 44100 = 0 /\
+(** formerly C03_timeline_sampledur_refuted: AAC with 1024-sample frames at 44.1 kHz, no default
+    sample duration in trex/tfhd (generated asset g2997a441) *)
+Lemma timeline_sampledur_witness :
+  mpd_frame_dur 1024 0 0 44100 = 1024 /\
   mpd_audio_timeline 0 0 [(60060, 3)] 30000 1024 0 0 44100
-  = Panic "calcAudioTimeFromRef: integer divide by zero (audioFrameDur)".
+  = Ok [ {| e_t := Some 0; e_d := 89088; e_r := 0 |}; {| e_t := None; e_d := 88064; e_r := 2 |} ].
 Proof. split; vm_compute; reflexivity. Qed.
 
-(** the other symptom: 2048-sample frames at 48 kHz ("mp4a.40.5", generated asset ghe2048), no default
-    sample duration: the MPD code works with 1024 and lists other durations than the images for the
-    frame duration 2048 with which the segments are cut *)
-Lemma timeline_sampledur_wrong_witness :
-  mpd_frame_dur 2048 0 0 48000 = 1024 /\
+(** formerly C03_timeline_sampledur_wrong_refuted: 2048-sample frames at 48 kHz (ghe2048) *)
+Lemma timeline_sampledur_2048_witness :
+  mpd_frame_dur 2048 0 0 48000 = 2048 /\
   exists l, mpd_audio_timeline 0 0 [(180000, 3)] 90000 2048 0 0 48000 = Ok l /\
-            expand_s 0 l = [(0, 96256); (96256, 96256); (192512, 96256); (288768, 95232)] /\
-            map (image 90000 2048 48000) (expand_ref 0 [(180000, 3)])
-            = [(0, 96256); (96256, 96256); (192512, 96256); (288768, 96256)].
-Proof.
-  split; [vm_compute; reflexivity|]. eexists. split; [vm_compute; reflexivity|].
-  split; vm_compute; reflexivity.
-Qed.
+            expand_s 0 l = map (image 90000 2048 48000) (expand_ref 0 [(180000, 3)]).
+Proof. split; [vm_compute; reflexivity|]. eexists. split; vm_compute; reflexivity. Qed.
